@@ -136,7 +136,7 @@ def replay(path):
 
 def main(tier, seed):
     t0 = time.time()
-    opts = {'examples': common.budget(tier, 45, 1200),
+    opts = {'examples': common.budget(tier, 120, 1500),
             'max_tasks': common.budget(tier, 8, 12),
             'max_devs': common.budget(tier, 6, 12),
             'time_budget': common.budget(tier, 70, 1500),
